@@ -191,7 +191,10 @@ def runOp (op : String) (a : List String) : Option String :=
     pure (match Base58.checkDecode pr b with
       | some (p, v) => "ok " ++ hx p ++ " " ++ toString v.toNat
       | none => "err")
-  | "der.ser", [r, s] => do let r ← unnat r; let s ← unnat s; pure ("ok " ++ hx (Der.serialise r s))
+  | "der.ser", [r, s] => do
+    let r ← unnat r; let s ← unnat s
+    -- the pair, and (unless both fields are one object on the real side: r = s) the pair after s := s + 1 in place
+    pure ("ok " ++ hx (Der.serialise r s) ++ (if r == s then "" else " " ++ hx (Der.serialise r (s + 1))))
   | "der.parse", [h] => do
     let b ← unhex h
     pure (match Der.parseDER b with | some (r, s) => "ok " ++ nhx r ++ " " ++ nhx s | none => "err")
